@@ -40,6 +40,10 @@ def run(ctx):
         from rules import c02
         bn = {m.base: m for m in facts.fns if m.config == cfg and m.cls == c02.CLS and not m.rec.get("ctor") and not m.rec.get("dtor")}
         c02.check_empty_semantics(ctx, bn, rule="C20.R3-f")
+        # 'the backend has drained' — the predicate that lets the idle work (which reclaims the contexts) and the exit run — looks at every
+        # thread that has logged, threads that registered since the last reload included (= C07.R1d)
+        from rules import c07
+        c07.r1d(ctx, facts, cfg, rule="C20.R8d")
 
 
 def registry_walks(ctx, facts, cfg):
